@@ -47,10 +47,56 @@ func genC02(r *Rand, idx int, tier string) Case {
 	s := newTwinSession(cfg)
 	root := nfsx.Cred{}
 	s.Do(0, root, &nfsx.Req{Proc: "MNT", Name: []byte("/")})
+	var nestD uint64
+	var nestDir, nestChild []byte
+	if r.Chance(60) {
+		// nested set-up: a directory with children whose attributes / listing / negative entries are cached
+		dn := pickName(r, 0)
+		if st := s.Do(0, root, &nfsx.Req{Proc: "MKDIR", H: 1, Name: dn}); st.Obs.FH != nil {
+			d := *st.Obs.FH
+			nestD, nestDir = d, dn
+			for k := 0; k < 1+r.Intn(3); k++ {
+				cn := pickName(r, 0)
+				nestChild = cn
+				s.Do(0, root, &nfsx.Req{Proc: PickStr(r, "CREATE", "MKDIR", "LOOKUP"), H: d, Name: cn})
+				s.Do(pickAdv(r), root, &nfsx.Req{Proc: "LOOKUP", H: d, Name: cn})
+			}
+			s.Do(0, root, &nfsx.Req{Proc: PickStr(r, "READDIR", "READDIRPLUS"), H: d, Cnt: 4096, Max: 32768})
+		}
+	}
 	n := 20 + r.Intn(40)
+	var lastName []byte
+	probeAt := -1
+	if nestD != 0 && r.Chance(50) {
+		probeAt = r.Intn(n)
+	}
 	for i := 0; i < n; i++ {
+		if i == probeAt {
+			// move (or remove and re-create) the directory, then use its old handle and its children again
+			switch r.Intn(3) {
+			case 0, 1:
+				s.Do(pickAdv(r), root, &nfsx.Req{Proc: "RENAME", H: 1, Name: nestDir, H2: 1, Name2: pickName(r, 0)})
+			case 2:
+				s.Do(pickAdv(r), root, &nfsx.Req{Proc: "REMOVE", H: nestD, Name: nestChild})
+				s.Do(0, root, &nfsx.Req{Proc: "RMDIR", H: 1, Name: nestDir})
+			}
+			s.Do(0, root, &nfsx.Req{Proc: "LOOKUP", H: nestD, Name: nestChild})
+			s.Do(0, root, &nfsx.Req{Proc: PickStr(r, "READDIR", "READDIRPLUS", "GETATTR"), H: nestD, Cnt: 4096, Max: 32768})
+			s.Do(0, root, &nfsx.Req{Proc: "LOOKUP", H: 1, Name: nestDir})
+		}
 		proc := pickProc(r, c02Weights)
 		q := genReq(r, s, proc, 0)
+		// name recency bias: operate again on the name just used (lookup-then-create, create-then-lookup,
+		// rename-then-lookup ... are the sequences caches get wrong)
+		if lastName != nil && q.Name != nil && r.Chance(45) {
+			q.Name = lastName
+		}
+		if q.Name != nil {
+			lastName = q.Name
+		}
+		if proc == "RENAME" && r.Chance(60) {
+			q.H2 = q.H
+		}
 		q.Sa = nfsx.Sattr{}
 		if proc == "SYMLINK" {
 			q.Target = []byte(PickStr(r, "a", "b", "c/d", "nothere"))
